@@ -97,7 +97,10 @@ def compile_modified_block(
             )
     qubit_num_args = []
     if modified_block.has_control():
-        for control in modified_block.control:
+        # Each control operation prepends its array to the inputs, so the controls
+        # are applied last-to-first: the first control ends up outermost and the
+        # inputs are ordered like `ctrl_args` below.
+        for control in reversed(modified_block.control):
             assert control.qubit_num is not None
             qubit_num: ht.TypeArg
             if isinstance(control.qubit_num, int):
@@ -121,6 +124,7 @@ def compile_modified_block(
             # update types
             in_out_arg = ht.ListArg([std_array.type_arg(), *in_out_arg.elems])
             hugr_ty = output_fn_ty
+        qubit_num_args.reverse()
 
     # Prepare control arguments
     ctrl_args: list[Wire] = []
